@@ -680,6 +680,52 @@ theorem wrapper_process (Φ Q : ℝ → ℝ) (c : Cfg ℝ) (keep : Bool) (raws :
   · simp only [fieldTransform, Bool.not_true, Bool.false_eq_true, ↓reduceIte, pure, Except.pure]
     exact applyFunction_process c keep _ raws hinv
 
+/-- `apply_function(process=True)` for an arbitrary (possibly non-pointwise, possibly raising) array function -/
+theorem applyFunction_process_general (c : Cfg ℝ) (keep : Bool) (f : List ℝ → Except String (List ℝ)) (raws : List ℝ)
+    (hinv : ∀ r ∈ raws, c.norm.normalize (c.norm.denormalize (r + c.mean)) = r + c.mean) :
+    applyFunction c true keep f (raws.map (storedField c)) =
+      (f (raws.map fun r => usedMean c true keep + r)).map (List.map (postProcess c keep)) := by
+  have hdata : (raws.map (storedField c)).map (preProcess c keep) = raws.map fun r => usedMean c true keep + r := by
+    rw [List.map_map]
+    apply List.map_congr_left
+    intro r hr
+    simp only [Function.comp, wrapper_input_process c keep r (hinv r hr)]
+  simp only [applyFunction, ↓reduceIte, hdata]
+  cases f (raws.map fun r => usedMean c true keep + r) <;> rfl
+
+/-- the default-normal configuration (no normalizer, no trend) with mean `m` -/
+def defaultCfg (m sill : ℝ) : Cfg ℝ := { mean := m, sill := sill, trend := none, norm := .none }
+
+/-- **Processing is conjugation** (all nine wrappers): `fld.transform(method, process=True, keep_mean=k)` on the stored
+    field `trend + denorm(mean + raw)` equals the *unprocessed* transformation of the default-normal field
+    `usedMean + raw` (mean `usedMean`, same sill, no normalizer, no trend), followed entrywise by the post-processing
+    `y ↦ trend + denorm(y + (0 if keep_mean else mean))`; errors are propagated unchanged. -/
+theorem process_is_conjugation (Φ Q : ℝ → ℝ) (c : Cfg ℝ) (keep : Bool) (raws : List ℝ) (m : Method ℝ)
+    (hinv : ∀ r ∈ raws, c.norm.normalize (c.norm.denormalize (r + c.mean)) = r + c.mean) :
+    fieldTransform Φ Q c true keep (raws.map (storedField c)) m =
+      (fieldTransform Φ Q (defaultCfg (usedMean c true keep) c.sill) false keep
+        (raws.map fun r => usedMean c true keep + r) m).map (List.map (postProcess c keep)) := by
+  have hchk : checkDefaultNormal (defaultCfg (usedMean c true keep) c.sill) = .ok () := rfl
+  have hum : usedMean (defaultCfg (usedMean c true keep) c.sill) false keep = usedMean c true keep := by
+    simp [usedMean, defaultCfg]
+  have hnp : ∀ (f : List ℝ → Except String (List ℝ)) (d : List ℝ),
+      applyFunction (defaultCfg (usedMean c true keep) c.sill) false keep f d = f d := by
+    intro f d; simp [applyFunction]
+  have hmean : (defaultCfg (usedMean c true keep) c.sill).mean = usedMean c true keep := rfl
+  have hsill : (defaultCfg (usedMean c true keep) c.sill).sill = c.sill := rfl
+  cases m with
+  | discrete vals mode =>
+    cases mode <;>
+    simp only [fieldTransform, Bool.not_true, Bool.not_false, Bool.false_eq_true, ↓reduceIte, bind, Except.bind, pure,
+      Except.pure, hchk, hum, hnp, hsill, applyFunction_process_general c keep _ raws hinv]
+  | binary divide upper lower =>
+    simp only [fieldTransform, Bool.not_true, Bool.not_false, Bool.false_eq_true, ↓reduceIte, bind, Except.bind,
+      hchk, hnp, hsill, hmean, applyFunction_process_general c keep _ raws hinv, Bool.true_and, Bool.false_and]
+    cases hd : divide.isNone <;> simp [usedMean]
+  | _ =>
+    simp only [fieldTransform, Bool.not_true, Bool.not_false, Bool.false_eq_true, ↓reduceIte, bind, Except.bind, pure,
+      Except.pure, hchk, hum, hnp, hsill, applyFunction_process_general c keep _ raws hinv]
+
 /-- the round-trip hypothesis is satisfiable: no normalizer, or the log-normal normalizer -/
 example (r m : ℝ) : (NormKind.none : NormKind ℝ).normalize ((NormKind.none : NormKind ℝ).denormalize (r + m)) = r + m := rfl
 example (r m : ℝ) : (NormKind.lognormal : NormKind ℝ).normalize ((NormKind.lognormal : NormKind ℝ).denormalize (r + m)) = r + m := by
@@ -718,7 +764,73 @@ theorem step_store (Φ Q : ℝ → ℝ) (c : Cfg ℝ) (reserved : List String) (
         obtain ⟨rfl, hrest⟩ := hc.2 o ho
         exact hrest
 
-/-! ## non-vacuity of the probabilistic hypotheses -/
+/-! ## the true normal cdf and Gaussian laws -/
+
+section Gauss
+open ProbabilityTheory Set
+
+/-- **The true normal cdf satisfies the hypotheses of all distributional theorems.** -/
+theorem gauss_isStdNormalCdf : IsStdNormalCdf gaussΦ gaussQ where
+  strictMono := gaussΦ_strictMono
+  pos := gaussΦ_pos
+  lt_one := gaussΦ_lt_one
+  right_inv := by
+    intro p hp0 hp1
+    have h := gaussΦ_surj hp0 hp1
+    simp only [gaussQ, dif_pos h]
+    exact h.choose_spec
+  symm := gaussΦ_symm
+
+/-- **Bridge to Gaussian laws**: a measurable `X` whose law is the Gaussian measure `N(m, v)` (`v ≠ 0`) has the normal
+    marginal of all the theorems above, with `Φ` the true standard normal cdf. -/
+theorem normalMarginal_of_gaussian_law {Ω : Type*} [MeasurableSpace Ω] {P : Measure Ω} {X : Ω → ℝ} (hX : Measurable X)
+    {m : ℝ} {v : NNReal} (hv : v ≠ 0) (hlaw : P.map X = gaussianReal m v) :
+    NormalMarginal P X gaussΦ m (Real.sqrt v) := by
+  have hs : 0 < Real.sqrt v := Real.sqrt_pos.mpr (by exact_mod_cast pos_iff_ne_zero.mpr hv)
+  intro x
+  have h1 : P {ω | X ω ≤ x} = (P.map X) (Iic x) := by
+    rw [Measure.map_apply hX measurableSet_Iic]; rfl
+  rw [measureReal_def, h1, hlaw, gaussianReal_eq_map_std,
+    Measure.map_apply (by fun_prop) measurableSet_Iic,
+    Measure.map_apply (by fun_prop) ((show Measurable fun z : ℝ => z + m by fun_prop) measurableSet_Iic),
+    gaussΦ_eq, measureReal_def]
+  congr 2
+  ext z
+  simp only [mem_preimage, mem_Iic]
+  rw [le_div_iff₀ hs]
+  constructor <;> intro h <;> linarith
+
+
+/-- **Capstone**: for a measurable `X` whose law is the Gaussian measure `N(m, v)`, `v ≠ 0`, and `Φ` the true standard
+    normal cdf: the transformed variables have exactly the documented cdfs (uniform on `[low, high]`, arcsine and
+    U-quadratic on the default bounds, log-normal) and Zinn–Harvey keeps the marginal. -/
+theorem gaussian_pushforwards {Ω : Type*} [MeasurableSpace Ω] {P : Measure Ω} [IsProbabilityMeasure P] {X : Ω → ℝ}
+    (hX : Measurable X) {m : ℝ} {v : NNReal} (hv : v ≠ 0) (hlaw : P.map X = ProbabilityTheory.gaussianReal m v) :
+    (∀ low high y, low < high →
+      P.real {ω | toUniform gaussΦ m v low high (X ω) ≤ y} = uniformCdf low high y) ∧
+    (∀ y, P.real {ω | toArcsin gaussΦ m v none none (X ω) ≤ y} =
+      arcsinCdf (arcsinDefaultA m v) (arcsinDefaultB m v) y) ∧
+    (∀ y, P.real {ω | toUquad gaussΦ m v none none (X ω) ≤ y} =
+      uquadCdf (uquadDefaultA m v) (uquadDefaultB m v) y) ∧
+    (∀ y, P.real {ω | toLognormal (X ω) ≤ y} = lognormalCdf gaussΦ m (Real.sqrt v) y) ∧
+    (∀ high, NormalMarginal P (fun ω => zinnharvey gaussΦ gaussQ high m v (X ω)) gaussΦ m (Real.sqrt v)) := by
+  have hN := normalMarginal_of_gaussian_law hX hv hlaw
+  have hv' : (0:ℝ) < v := by exact_mod_cast pos_iff_ne_zero.mpr hv
+  have h := gauss_isStdNormalCdf
+  refine ⟨fun low high y hlh => uniform_cdf h hN hv' hlh y, fun y => ?_, fun y => ?_,
+    fun y => lognormal_cdf hN y, fun high => zinnharvey_marginal h high hN hX hv'⟩
+  · refine arcsin_cdf h none none hN hv' ?_ y
+    have : 0 < Real.sqrt (2 * (v:ℝ)) := Real.sqrt_pos.mpr (by positivity)
+    simp only [Option.getD_none, arcsinDefaultA, arcsinDefaultB, sqrt_real, lit20]
+    linarith
+  · refine uquad_cdf h none none hN hv' ?_ y
+    have : 0 < Real.sqrt (5 / 3 * (v:ℝ)) := Real.sqrt_pos.mpr (by positivity)
+    simp only [Option.getD_none, uquadDefaultA, uquadDefaultB, sqrt_real, lit50, lit30]
+    linarith
+
+end Gauss
+
+/-! ## non-vacuity of the probabilistic hypotheses (independent of Mathlib's Gaussian measure) -/
 
 /-- the probability space `((0,1), Lebesgue)` -/
 noncomputable def unitP : Measure ℝ := volume.restrict (Set.Ioo 0 1)
